@@ -49,6 +49,13 @@ class Limits:
         self.rdiv_a_bits = 31      # int(a / n + 0.5): 0 <= a < 2^bits
         self.rdiv_n_max = 4        # 1 <= n <= n_max
         self.rint_bits = 33        # int(i + 0.5): 0 <= i < 2^bits
+        self.mdiv_Bs = ()          # ceil((M / B) * 1000): admitted divisors B (bytes per core)
+        self.mdiv_pmax = 10        # buckets (250*2^(p-1), 250*2^p], p <= pmax, and one open top bucket
+        self.mdiv_m_bits = 44      # 0 <= M < 2^bits
+        self.clog2_bits = 31       # ceil(log2(X / 1000)): 1 <= X < 2^bits
+        self.scale_Bs = ()         # int((X / 1000) * B): admitted B; X in {250 * 2^j, 0 <= j <= scale_jmax}
+        self.scale_jmax = 23
+        self.cdiv_bits = 47        # ceil(A / 2^a / 2^b / ...): 0 <= A < 2^bits
         self.__dict__.update(kw)
 
 
@@ -73,7 +80,70 @@ def make_helpers(lim):
             raise CutRangeError('rint operand out of lemma range')
         return i
 
-    return {'__fc_rdiv': fc_rdiv, '__fc_rint': fc_rint, '__fc_CutRangeError': CutRangeError}
+    def fc_ceil_mdiv(m, b, k):
+        # math.ceil((m / b) * 1000): NOT equal to the exact ceiling in Float64 (off by one ulp-induced unit for some m),
+        # but it always lies in the same power-of-two bucket (250*2^(p-1), 250*2^p] as the exact value  [lemma mdiv].
+        # The helper returns an ARBITRARY member of that bucket (chosen by the slack NONDET[b], a symbolic input of the
+        # harness): an over-approximation of the float result, sound for universally quantified properties.
+        if not (_is_int(m) and _is_int(b) and k == 1000):
+            raise CutRangeError('mdiv operands not int / factor not 1000')
+        if b not in lim.mdiv_Bs or not 0 <= m < (1 << lim.mdiv_m_bits):
+            raise CutRangeError('mdiv operands out of lemma range')
+        slack = nondet(b)
+        if not (_is_int(slack) and slack >= 0):
+            raise CutRangeError('mdiv slack must be a non-negative int')
+        lo = -1
+        for p in range(lim.mdiv_pmax + 1):
+            hi = 250 << p
+            if 4 * m <= (b << p):          # exact: ceil(1000 m / b) <= 250 * 2^p
+                return lo + 1 + slack % (hi - lo)
+            lo = hi
+        return lo + 1 + slack
+
+    def fc_ceil_log2_div(x, k):
+        # math.ceil(math.log2(x / 1000)) == least p with x <= 1000 * 2^p      [lemma clog2 + libm assumption]
+        if not (_is_int(x) and k == 1000):
+            raise CutRangeError('clog2 operand not int / divisor not 1000')
+        if not 1 <= x < (1 << lim.clog2_bits):
+            raise CutRangeError('clog2 operand out of lemma range')
+        for p in range(CLOG2_PLO, CLOG2_PHI + 1):
+            if (x << -p) <= 1000 if p < 0 else x <= (1000 << p):
+                return p
+        raise CutRangeError('clog2 operand above table')
+
+    def fc_scale(x, k, b):
+        # int((x / 1000) * b) == x * b // 1000 for x = 250 * 2^j      [lemma scale]
+        if not (_is_int(x) and _is_int(b) and k == 1000):
+            raise CutRangeError('scale operands not int / divisor not 1000')
+        if b not in lim.scale_Bs:
+            raise CutRangeError('scale factor not in lemma table')
+        for j in range(lim.scale_jmax + 1):
+            if x == (250 << j):
+                return x * b // 1000
+        raise CutRangeError('scale operand is not 250 * 2^j')
+
+    def fc_ceil_div(a, d):
+        # math.ceil(a / 2^i / 2^j / ...) == -(-a // 2^(i+j+...))      [lemma cdiv]
+        if not _is_int(a):
+            raise CutRangeError('cdiv operand not int')
+        if not 0 <= a < (1 << lim.cdiv_bits):
+            raise CutRangeError('cdiv operand out of lemma range')
+        return -(-a // d)
+
+    return {'__fc_rdiv': fc_rdiv, '__fc_rint': fc_rint, '__fc_ceil_mdiv': fc_ceil_mdiv,
+            '__fc_ceil_log2_div': fc_ceil_log2_div, '__fc_scale': fc_scale, '__fc_ceil_div': fc_ceil_div,
+            '__fc_CutRangeError': CutRangeError}
+
+
+CLOG2_PLO, CLOG2_PHI = -10, 21
+NONDET = {}
+
+
+def nondet(key):
+    """Slack values for over-approximating cuts; the harness fills NONDET with symbolic inputs before each call."""
+    if key not in NONDET:
+        raise CutRangeError(f'no slack value provided for {key}')
+    return NONDET[key]
 
 
 # ------------------------------------------------------------------------------------------------
@@ -111,10 +181,78 @@ class _Cutter(ast.NodeTransformer):
                     return self._note('rdiv', node, _call('__fc_rdiv', x.left, x.right))
             elif 'rint' in self.rules:
                 return self._note('rint', node, _call('__fc_rint', x))
+        # int((X / 1000) * B)
+        if (isinstance(f, ast.Name) and f.id == 'int' and len(node.args) == 1 and not node.keywords
+                and 'scale' in self.rules):
+            a = node.args[0]
+            if (isinstance(a, ast.BinOp) and isinstance(a.op, ast.Mult) and isinstance(a.left, ast.BinOp)
+                    and isinstance(a.left.op, ast.Div) and _is_const(a.left.right, 1000)):
+                return self._note('scale', node, _call('__fc_scale', a.left.left, a.left.right, a.right))
+        if _is_math(f, 'ceil') and len(node.args) == 1 and not node.keywords:
+            a = node.args[0]
+            # math.ceil((M / B) * 1000)
+            if ('mdiv' in self.rules and isinstance(a, ast.BinOp) and isinstance(a.op, ast.Mult)
+                    and _is_const(a.right, 1000) and isinstance(a.left, ast.BinOp) and isinstance(a.left.op, ast.Div)):
+                return self._note('mdiv', node, _call('__fc_ceil_mdiv', a.left.left, a.left.right, a.right))
+            # math.ceil(math.log2(X / 1000))
+            if ('clog2' in self.rules and isinstance(a, ast.Call) and _is_math(a.func, 'log2') and len(a.args) == 1
+                    and isinstance(a.args[0], ast.BinOp) and isinstance(a.args[0].op, ast.Div)
+                    and _is_const(a.args[0].right, 1000)):
+                return self._note('clog2', node, _call('__fc_ceil_log2_div', a.args[0].left, a.args[0].right))
         return node
 
+    def _visit_body(self, node):
+        """statement pair   v = A / c1 / c2 ...   ;   v = math.ceil(v)     (c_i powers of two, A a plain name)"""
+        self.generic_visit(node)
+        if 'cdiv' not in self.rules:
+            return node
+        body = node.body
+        i = 0
+        while i + 1 < len(body):
+            s1, s2 = body[i], body[i + 1]
+            m = _div_chain(s1)
+            if (m and isinstance(s2, ast.Assign) and len(s2.targets) == 1 and isinstance(s2.targets[0], ast.Name)
+                    and s2.targets[0].id == m[0] and isinstance(s2.value, ast.Call) and _is_math(s2.value.func, 'ceil')
+                    and len(s2.value.args) == 1 and isinstance(s2.value.args[0], ast.Name)
+                    and s2.value.args[0].id == m[0]):
+                d = 1
+                for c in m[2]:
+                    d *= c
+                new = ast.Assign(targets=[ast.Name(id=m[0], ctx=ast.Store())],
+                                 value=_call('__fc_ceil_div', ast.Name(id=m[1], ctx=ast.Load()), ast.Constant(value=d)))
+                self.applied.append({'rule': 'cdiv', 'line': s1.lineno,
+                                     'before': ast.unparse(s1) + '; ' + ast.unparse(s2), 'after': ast.unparse(new),
+                                     'divisors': m[2]})
+                body[i:i + 2] = [ast.copy_location(new, s1)]
+            i += 1
+        return node
 
-ALL_RULES = ('rdiv', 'rint')
+    visit_FunctionDef = _visit_body
+    visit_AsyncFunctionDef = _visit_body
+
+
+def _is_math(f, name):
+    return (isinstance(f, ast.Attribute) and f.attr == name and isinstance(f.value, ast.Name) and f.value.id == 'math')
+
+
+def _div_chain(stmt):
+    """`v = A / c1 / c2 / ...` with A a Name and every c_i an int power of two -> (v, A, [c1, c2, ...])."""
+    if not (isinstance(stmt, ast.Assign) and len(stmt.targets) == 1 and isinstance(stmt.targets[0], ast.Name)):
+        return None
+    e = stmt.value
+    cs = []
+    while isinstance(e, ast.BinOp) and isinstance(e.op, ast.Div):
+        c = e.right
+        if not (isinstance(c, ast.Constant) and type(c.value) is int and c.value > 1 and c.value & (c.value - 1) == 0):
+            return None
+        cs.append(c.value)
+        e = e.left
+    if not cs or not isinstance(e, ast.Name):
+        return None
+    return stmt.targets[0].id, e.id, cs[::-1]
+
+
+ALL_RULES = ('rdiv', 'rint', 'mdiv', 'clog2', 'scale', 'cdiv')
 
 
 class CutResult:
